@@ -28,7 +28,9 @@ def run(env, res):
                 'non-trivial when the model accepts it and it terminates; distinct by canonical program text')
     directed = [('c01-straight', fo.c01_family, env.n(400, 100000)), ('c01-random-straight', fo.c01_random_straight, env.n(300, 6000)),
                 ('c01-malformed-failure-group', fo.c01_malformed_failure_family, env.n(120, 100000)),
-                ('c01-malformed-group', fo.c01_malformed_group_family, env.n(60, 100000))]
+                ('c01-malformed-group', fo.c01_malformed_group_family, env.n(60, 100000)),
+                ('c01-names', fo.c01_names_family, env.n(60, 100000)),
+                ('c01-error-values', fo.c01_error_values_family, env.n(44, 100000))]
     flowcheck.run_streams(env, res, directed, env.n(400, 100000), weights={'fail': 5, 'stop': 1, 'stopstepgroup': 1, 'stoppipeline': 1},
                           random_monitor=flowcheck.monitor_all)
 
